@@ -126,6 +126,10 @@ pub enum Scenario {
     Twins,
     /// like Gc but short (<= 24 operations, <= 4 nodes): the histories the Miri tier interprets
     GcSmall,
+    /// like Gc, but rows carry no owner tag (equal rows can come from two owner nodes) and no
+    /// body dereferences an intern_ref reference: every read of such a reference is a
+    /// top-level `Lookup`, guarded by the model's replay of the documented re-pointing algorithm
+    GcCross,
 }
 
 impl Scenario {
@@ -134,6 +138,7 @@ impl Scenario {
             "general" => Some(Scenario::General),
             "gc" => Some(Scenario::Gc),
             "gcsmall" => Some(Scenario::GcSmall),
+            "gccross" => Some(Scenario::GcCross),
             "twins" => Some(Scenario::Twins),
             _ => None,
         }
@@ -143,6 +148,7 @@ impl Scenario {
             Scenario::General => "general",
             Scenario::Gc => "gc",
             Scenario::GcSmall => "gcsmall",
+            Scenario::GcCross => "gccross",
             Scenario::Twins => "twins",
         }
     }
@@ -203,7 +209,7 @@ pub fn generate(seed: u64, scenario: Scenario) -> Case {
     };
     let value_domain = rng.range(2, 4) as i64;
     let capacity = match scenario {
-        Scenario::Gc | Scenario::GcSmall => *rng.pick(&[1usize, 1, 2, 2, 3, 5]),
+        Scenario::Gc | Scenario::GcSmall | Scenario::GcCross => *rng.pick(&[1usize, 1, 2, 2, 3, 5]),
         _ => *rng.pick(&[1usize, 2, 3, 5, 10_000, 10_000]),
     };
     let n_stable = rng.below(n_cells as u64 + 1) as u8;
@@ -214,7 +220,7 @@ pub fn generate(seed: u64, scenario: Scenario) -> Case {
 
     // atom weights: a random subset is switched off per run (swarm testing)
     let mut aw: [u32; 12] = [6, 3, 5, 7, 2, 3, 2, 1, 1, 3, 2, 2];
-    if matches!(scenario, Scenario::Gc | Scenario::GcSmall) {
+    if matches!(scenario, Scenario::Gc | Scenario::GcSmall | Scenario::GcCross) {
         aw[9] += 5;
         aw[10] += 3;
         aw[11] += 2;
@@ -225,6 +231,10 @@ pub fn generate(seed: u64, scenario: Scenario) -> Case {
         }
     }
     aw[0] = aw[0].max(1);
+    if matches!(scenario, Scenario::GcCross) {
+        aw[9] = 0; // no UsePick atom: bodies never dereference an intern_ref reference
+        aw[2] += 6; // singletons: the same value reaches several nodes' rows
+    }
 
     let mut nodes = Vec::new();
     for level in 0..n_nodes {
@@ -250,7 +260,7 @@ pub fn generate(seed: u64, scenario: Scenario) -> Case {
     let program = Program {
         nodes,
         stable_keys: stable.clone(),
-        row_owner_tag: true,
+        row_owner_tag: !matches!(scenario, Scenario::GcCross),
     };
 
     // ---- operation weights ----
@@ -261,6 +271,9 @@ pub fn generate(seed: u64, scenario: Scenario) -> Case {
         Scenario::General => [
             14, 4, 8, 3, 2, 24, 4, 2, 2, 2, 3, 3, 4, 2, 2, 2, 1, 3, 1, 1, 1, 5, 0,
         ],
+        Scenario::GcCross => [
+            12, 2, 10, 2, 1, 4, 1, 0, 0, 0, 6, 16, 0, 2, 2, 2, 1, 14, 3, 2, 1, 14, 0,
+        ],
         Scenario::Gc | Scenario::GcSmall => [
             10, 3, 5, 2, 1, 12, 2, 1, 1, 1, 5, 8, 9, 4, 4, 4, 2, 8, 4, 3, 2, 14, 0,
         ],
@@ -269,8 +282,10 @@ pub fn generate(seed: u64, scenario: Scenario) -> Case {
         ],
     };
     for (i, w) in ow.iter_mut().enumerate() {
-        // never switch off Set / CallNode / Twin; others off with probability 1/5
-        if i != 0 && i != 5 && i != 22 && rng.chance(1, 5) {
+        // never switch off Set / CallNode / Twin (and, in GcCross, CallPick / Lookup / Gc);
+        // others off with probability 1/5
+        let pinned = i == 0 || i == 5 || i == 22 || (matches!(scenario, Scenario::GcCross) && (i == 11 || i == 17 || i == 21));
+        if !pinned && rng.chance(1, 5) {
             *w = 0;
         }
     }
